@@ -168,6 +168,12 @@ _INSPECTED = {}
 
 
 def scan_input(case):
+    if case.get("dom") == "batchorder":
+        return None
+    return _scan_input(case)
+
+
+def _scan_input(case):
     """the source file the materialiser will generate for this case, classified line by line with the library's
     own regular expressions, and the line of the `lambda` (what `inspect.findsource` reports for the condition)"""
     if case.get("dom") == "hashseed" or case.get("named"):
@@ -191,7 +197,7 @@ def scan_input(case):
 
 
 def driver_inputs(case):
-    if case.get("dom") == "hashseed":
+    if case.get("dom") in ("hashseed", "batchorder"):
         return []
     li, _objs = lean_input(case)
     si = scan_input(case)
@@ -253,7 +259,7 @@ def _expr_view(case, mos):
 
 def project(case, obs):
     """what model and implementation must agree on"""
-    if case.get("dom") == "hashseed":
+    if case.get("dom") in ("hashseed", "batchorder"):
         return "untied"
     li, _objs = lean_input(case)
     si = scan_input(case)
@@ -562,6 +568,9 @@ def check_determinism(case, io, mos=None):
             fails.append("call variant %d (%s) gives a different message:\n%s\n--- vs ---\n%s" % (vi, (case.get("variants") or [{}])[vi], m[1] if len(m) > 1 else m, msgs[0][1]))
             break
     keys = [k for k, _v in io["entries"]]
+    for k in ("_ARGS", "_KWARGS"):
+        if k in case.get("params", ARGS) and k not in keys:
+            fails.append("%s is named by the condition but not shown" % k)
     if keys != sorted(keys):
         fails.append("the value lines are not sorted by expression text: %s" % keys)
     params = case.get("params", ARGS)
@@ -649,7 +658,43 @@ def check_hashseed(case, io):
     return fails
 
 
+def run_batchorder(case):
+    """several contracts defined in ONE scope (one module, one enclosing function), violated in different orders"""
+    outs = []
+    for order in case["orders"]:
+        obs = implexpr.run_batch([case["cases"][i] for i in order])
+        by_case = {}
+        for i, o in zip(order, obs):
+            by_case[i] = o
+        outs.append([by_case[i] for i in range(len(case["cases"]))])
+    return {"define": ["ok"], "orders": outs}
+
+
+def _body_of(msg):
+    import re
+    if not isinstance(msg, str):
+        return msg
+    body = msg.split("\n", 1)[1] if msg.startswith("File ") and "\n" in msg else msg
+    return re.sub(r"^descr \d+: ", "descr: ", body)       # (the harness numbers the descriptions by position in the module)
+
+
+def check_batchorder(case, io):
+    fails = []
+    first = io["orders"][0]
+    for i, sub in enumerate(case["cases"]):
+        for f in check_determinism(sub, first[i]):
+            fails.append("contract %d (%s): %s" % (i, sub["expr"], f))
+        for oi, obs in enumerate(io["orders"][1:], 1):
+            a, b = _body_of(first[i].get("message")), _body_of(obs[i].get("message"))
+            if a != b or first[i]["out"] != obs[i]["out"]:
+                fails.append("contract %d (%s): violated in the order %s its message is\n%s\n--- in the order %s it is ---\n%s"
+                             % (i, sub["expr"], case["orders"][0], a, case["orders"][oi], b))
+    return fails
+
+
 def kinds_key(case):
+    if case.get("dom") == "batchorder":
+        return ("batchorder", tuple(c["expr"] for c in case["cases"]))
     if case.get("dom") == "hashseed":
         return ("hashseed", len(case["cases"]))
     try:
@@ -660,6 +705,9 @@ def kinds_key(case):
 
 
 def stats(case, mos, io, dist):
+    if case.get("dom") == "batchorder":
+        dist["batchorder_cases"] += len(case["cases"]) * len(case["orders"])
+        return
     if case.get("dom") == "hashseed":
         dist["hashseed_batches"] += 1
         dist["hashseed_cases"] += len(case["cases"])
